@@ -2,7 +2,7 @@
   Oracle commands for C13 (names, digests, store paths).  All byte strings in hex ("-" = empty).
     mname <s>                 -> bare=h,ns,m,t full=h,ns,m,t valid=b str=<hex> fp=<hex|!>
     mpath <s>                 -> h,ns,m,t                         (model.ParseNameFromFilepath)
-    nname <s>                 -> p=h,ns,m,t valid=b fq=b str=.. merged=h,ns,m,t mfq=b mstr=..
+    nname <n1fixed 0|1> <s>   -> p=h,ns,m,t valid=b fq=b str=.. merged=h,ns,m,t mfq=b mstr=..
     vpart <M|N> <kind> <s>    -> 0|1                              (isValidPart of either package)
     mp <root> <s>             -> f=scheme,reg,ns,repo,tag path=<hex|!>
     blobs <root> <s>          -> ok <hex> | err                   (server.GetBlobsPath)
@@ -44,10 +44,11 @@ def handle (toks : List String) : Option String :=
       pure (showName (parseNameFromFilepath s))) rest
   | "nname" :: rest =>
     runTP (do
+      let fixed ← nat
       let s ← hex
       let n := parseN s
       let m := merge n defaultMask
-      pure s!"p={showName n} valid={b01 (isValidN n)} fq={b01 (isFQN n)} str={hexOrDash (toStr n)} merged={showName m} mfq={b01 (isFQN m)} mstr={hexOrDash (toStr m)}") rest
+      pure s!"p={showName n} valid={b01 (isValidNv (fixed != 0) n)} fq={b01 (isFQN n)} str={hexOrDash (toStr n)} merged={showName m} mfq={b01 (isFQN m)} mstr={hexOrDash (toStr m)}") rest
   | "vpart" :: pkg :: rest =>
     runTP (do
       let k ← nat
